@@ -32,7 +32,9 @@ def strategy():
         method = draw(st.sampled_from(['nla', 'nla', 'chic']))
         L = draw(st.integers(120, 400))
         ref = list(draw(st.lists(st.sampled_from('ACGT'), min_size=L, max_size=L)))
-        site = draw(st.integers(10, L - 90))
+        site = draw(st.one_of(st.integers(10, L - 90), st.sampled_from([0, 0, 1, 2, 3])))     # also cuts at the very start of the contig
+        if method == 'chic':
+            site = max(site, 1)      # the site of a scCHIC cut is the base before the overhang base
         if method == 'nla':
             ref[site:site + 4] = list('CATG')
         motif = 'intact'
